@@ -59,7 +59,7 @@ def lex(text):
         elif k == "bin":
             out.append(("bin", v[1:]))
         elif k == "real":
-            out.append(("real", real_key(v)))
+            out.append(("real", real_key(v), v))      # (kind, the double as printf("%#.15g") shows it, source spelling)
         elif k == "int":
             out.append(("int", int(v)))
         elif k == "word":
@@ -103,6 +103,100 @@ def word(t):
     if k == "sym" and t[1] in ("(", ")", "[", "]", ",", ":", ".", "\\", "|", "<*"):
         return t[1]
     return None
+
+
+# ------------------------------------------------------------------ numeric literal values
+from decimal import Decimal, getcontext
+getcontext().prec = 60
+DBL_MIN = Decimal("2.225073858507205E-308")        # below this the 15-digit spelling exppp prints is below DBL_MIN (2.2250738585072014E-308)
+DBL_MAX_15 = Decimal("1.797693134862315E308")      # from here on the 15-digit spelling exppp prints is above DBL_MAX
+INT_MAX = 2147483647
+
+
+def literal_class(t):
+    """None for a numeric literal the tools can represent, else the class of the finding (classified from the INPUT)"""
+    if t[0] == "int":
+        return "integer-literal:above-INT_MAX" if t[1] > INT_MAX else None
+    if t[0] == "real":
+        v = abs(Decimal(t[2]))
+        if v != 0 and v < DBL_MIN:
+            return "real-literal:below-DBL_MIN"
+        if v >= DBL_MAX_15:
+            return "real-literal:above-DBL_MAX"
+    return None
+
+
+def numeric_diff(a, b):
+    """source tokens a, output tokens b: the numeric literals, in order, must keep kind and value (reals: <= 1 unit of the
+    15th significant digit; zero only for zero).  Returns (message or None, b with the reals that are equal by value
+    respelled like the source so that the structural comparison sees them equal)."""
+    na = [i for i, t in enumerate(a) if t[0] in ("int", "real")]
+    nb = [i for i, t in enumerate(b) if t[0] in ("int", "real")]
+    if len(na) != len(nb):
+        return None, b
+    b2 = list(b)
+    for i, j in zip(na, nb):
+        x, y = a[i], b[j]
+        if x[0] != y[0]:
+            return f"{'REAL' if x[0] == 'real' else 'INTEGER'} literal `{tok_text(x)}` was printed as the {'REAL' if y[0] == 'real' else 'INTEGER'} literal `{tok_text(y)}`", b
+        if x[0] == "int":
+            if x[1] != y[1]:
+                return f"INTEGER literal `{x[1]}` was printed as `{y[1]}`", b
+            continue
+        try:
+            dx, dy = Decimal(x[2]), Decimal(y[2])
+        except Exception:
+            return f"REAL literal `{x[2]}` was printed as `{y[2]}`", b
+        if dx == dy or (dx != 0 and dy != 0 and abs(dx - dy) <= Decimal(1).scaleb(dx.adjusted() - 14)):
+            b2[j] = x
+        else:
+            return f"REAL literal `{x[2]}` was printed as `{y[2]}` (value changed" + (": a non-zero literal became zero" if dy == 0 else "") + ")", b
+    return None, b2
+
+
+def real_grid(full, rng):
+    """REAL literal spellings: mantissa digit counts x decimal exponents x notations"""
+    exps = [-400, -320, -300, -45, -39, -38, -37, -1, 0, 1, 15, 16, 17, 37, 38, 39, 300, 308, 309, 400]
+    counts = list(range(1, 18)) if full else [1, 2, 7, 15, 16, 17]
+    out = []
+    k = 0
+    for e in exps:
+        for n in counts:
+            digits = "".join(rng.choice("123456789") for _ in range(n))
+            if e in (308, -38) and rng.random() < 0.5:
+                digits = "1" + digits[1:]           # both sides of DBL_MAX / FLT_MIN
+            k += 1
+            form = k % 4
+            mant = digits[0] + "." + digits[1:]
+            if form == 0: out.append(f"{mant}E{e}")
+            elif form == 1: out.append(f"{mant}e{'+' if e >= 0 else ''}{e}" if len(digits) > 1 else f"{digits}.E{e}")
+            elif form == 2 and -8 <= e <= 40:
+                if e >= 0:
+                    ip = digits[:e + 1].ljust(e + 1, "0"); fp = digits[e + 1:]
+                    out.append(ip + "." + fp)
+                else:
+                    out.append("0." + "0" * (-e - 1) + digits)
+            else: out.append(f"{digits}.0E{e - (len(digits) - 1)}" if len(digits) > 1 else f"{digits}.0E{e}")
+    out += ["1.", "1.0", "1.E5", "0.5", "100.", "1.17549435E-38", "1.17549436E-38", "2.2250738585072014E-308", "1.7976931348623157E308", "1.797693134862314E308"]
+    return out
+
+
+def int_grid(rng):
+    out = ["0", "1", "9", "2147483647", "2147483648", "4294967296", "9223372036854775807", "9223372036854775808"]
+    for n in (2, 5, 9, 10, 11, 15, 19, 20, 25):
+        out.append(rng.choice("123456789") + "".join(rng.choice("0123456789") for _ in range(n - 1)))
+    return out
+
+
+def literal_schema(name, kind, lits):
+    L = [f"SCHEMA {name};", "CONSTANT"]
+    for i, l in enumerate(lits):
+        L.append(f"  k{i} : {kind} := {l};")
+    L += ["END_CONSTANT;", "ENTITY e1;", f"  a : {kind};", "WHERE"]
+    for i, l in enumerate(lits[:12]):
+        L.append(f"  w{i} : a <> {l};")
+    L += ["END_ENTITY;", "END_SCHEMA;"]
+    return "\n".join(L) + "\n"
 
 
 def merge_strings(toks):
@@ -221,7 +315,7 @@ def tok_text(t):
     if k == "id": return t[1]
     if k == "int": return str(t[1])
     if k == "realsrc": return t[1]
-    if k == "real": return repr(float(t[1]))
+    if k == "real": return t[2] if len(t) > 2 else repr(float(t[1]))
     if k == "str": return "'" + t[1] + "'"
     if k == "estr": return '"' + t[1] + '"'
     if k == "bin": return "%" + t[1]
